@@ -158,3 +158,35 @@ func SortedKeys[V any](m map[string]V) []string {
 	sort.Strings(k)
 	return k
 }
+
+// ArraySizeBand is the model-free size-band oracle of C05 for an array tree: every slab reachable
+// from root through tree links is at most maxThreshold, every non-root one at least minThreshold
+// (array slabs are all size-limited).  It returns a description of the first offender, or "".
+func ArraySizeBand(st atree.SlabStorage, root atree.Slab) string {
+	_, minT, maxT, _, _, _ := atree.VerifThresholds()
+	var bad string
+	var rec func(s atree.Slab, isRoot bool)
+	rec = func(s atree.Slab, isRoot bool) {
+		if bad != "" {
+			return
+		}
+		sz := s.ByteSize()
+		if sz > maxT {
+			bad = fmt.Sprintf("slab %s has %d bytes, more than the maximum %d", IDStr(s.SlabID()), sz, maxT)
+			return
+		}
+		if !isRoot && sz < minT {
+			bad = fmt.Sprintf("non-root slab %s has %d bytes, fewer than the minimum %d", IDStr(s.SlabID()), sz, minT)
+			return
+		}
+		for _, id := range atree.VerifChildSlabIDs(s) {
+			c, ok, err := st.Retrieve(id)
+			if err != nil || !ok {
+				continue
+			}
+			rec(c, false)
+		}
+	}
+	rec(root, true)
+	return bad
+}
